@@ -359,7 +359,7 @@ fn c35_short_reads_signed_assets_all_formats() {
             if panicked {
                 bad("io.short_read_panic".to_string(), format!("signed {file}: piece size {piece}"), &mut counts);
             } else if describe(&r) != want {
-                bad("io.result_depends_on_read_size".to_string(), format!("signed {file}: piece size {piece}: {} instead of {want}", describe(&r)), &mut counts);
+                bad(format!("io.result_depends_on_read_size.{}", file.rsplit('.').next().unwrap_or("")), format!("signed {file}: piece size {piece}: {} instead of {want}", describe(&r)), &mut counts);
             }
         }
         let step = (total_ops / 40).max(1);
